@@ -332,6 +332,14 @@ def run_shard(ctx, spec):
 _COST = {}
 
 
+def cost(name, default=1e-4):
+    """Tabulated cost of *name*, or *default* for models outside the table (Python models, plugins)."""
+    try:
+        return eval_time(name) if name in model_list() else default
+    except Exception:
+        return default
+
+
 def eval_time(name):
     """Cost of one single-particle evaluation in seconds (sizes the mesh cap of slow models).
 
